@@ -211,6 +211,8 @@ def run(ctx):
     try:
         _run_structural(ctx)
     except (AnalysisError, Exception) as exc:
+        if isinstance(exc, (NameError, ImportError, UnboundLocalError)):
+            raise       # a defect of the checker itself, never a reason to fall back
         if w[2] is not None and not w[1]:
             raise
         r0 = ctx.rule("R0", "the structural rules cannot follow this shape of the command; decided by its evaluation on the witness project")
